@@ -371,6 +371,13 @@ def execute(x, keep=0):
         ev["exc"] = f"json.dumps(to_json()): {type(e).__name__}: {e}"[:200]
         j = None
     if j is not None:
+        # the binary-excluded encoding is taken BEFORE any accessor of x runs (some accessors write into
+        # the object -- that is C06's business, not this property's)
+        try:
+            ev["nb"] = p.js(json.loads(json.dumps(serialize_extraction(x, include_binary=False))))
+        except Exception as e:
+            ev["nb"] = err
+            ev["exc"] = f"serialize_extraction(include_binary=False): {type(e).__name__}: {e}"[:200]
         try:
             y = ExtractionInterface.from_json(j)
             ev["out"] = p.py(y)
@@ -381,11 +388,6 @@ def execute(x, keep=0):
         except Exception as e:
             ev["out"] = err
             ev["exc"] = f"from_json: {type(e).__name__}: {e}"[:200]
-        try:
-            ev["nb"] = p.js(json.loads(json.dumps(serialize_extraction(x, include_binary=False))))
-        except Exception as e:
-            ev["nb"] = err
-            ev["exc"] = f"serialize_extraction(include_binary=False): {type(e).__name__}: {e}"[:200]
     ev["_enc"], ev["_dec"] = p.enc, p.dec
     ev["_classes"] = sorted(p.classes | {s for s in p.strs if s in _registry()})
     ev["_nodes"] = p.nodes
